@@ -55,6 +55,25 @@ theorem print_injective (a b : PE) (h : print a = print b) : a = b := by
   rw [ha] at hb
   simpa using hb
 
+/-- **Unambiguous in context**: no written expression is a proper prefix of another — whatever follows it (the next select item,
+a closing parenthesis, a keyword), the text splits in exactly one way. -/
+theorem print_prefix_free (a b : PE) (r1 r2 : List Tok) (h : print a ++ r1 = print b ++ r2) : a = b ∧ r1 = r2 := by
+  have ha := parse_print a (size a + size b) r1 (by omega)
+  have hb := parse_print b (size a + size b) r2 (by omega)
+  rw [h, hb] at ha
+  simp only [Option.some.injEq, Prod.mk.injEq] at ha
+  exact ⟨ha.1.symm, ha.2.symm⟩
+
+/-- a sequence of written expressions (a select list, an argument list) is read back as that sequence -/
+theorem print_list_injective : ∀ (as bs : List PE), as.length = bs.length → as.flatMap print = bs.flatMap print → as = bs
+  | [], [], _, _ => rfl
+  | [], _ :: _, hl, _ => by simp at hl
+  | _ :: _, [], hl, _ => by simp at hl
+  | a :: as, b :: bs, hl, h => by
+    simp only [List.flatMap_cons] at h
+    obtain ⟨e1, e2⟩ := print_prefix_free a b _ _ h
+    rw [e1, print_list_injective as bs (by simpa using hl) e2]
+
 /-- the writer before the repair did not delimit the operand of a suffix predicate: of `(a ∨ b) IS NULL` the reader gets `a ∨ b`
 followed by a dangling `IS NULL` — where it attaches is left to the precedence table of whoever reads the text (SQL attaches it
 to `b`), and a prefix operator's text is the same for `(NOT a) IS NULL` as SQL's reading of `NOT (a IS NULL)` -/
